@@ -413,6 +413,42 @@ def rebuild_search(c: type, tier: str = "quick"):
     return {"reproduced": False, "note": f"real {c.__name__} is reproduced from its own arguments on {n} enumerated instances"}
 
 
+def keyword_construction_search(c: type):
+    """C(**kwargs) with the keywords in ANY order, and C(first, **rest) -- is the instance C(*positional): same args (in field order),
+    same attributes, same evaluate(). (evaluate() of several classes unpacks self.args positionally.)"""
+    import random
+
+    fs = list(K.sympy_fields(c))
+    if len(fs) < 2:
+        return {"reproduced": False, "note": "fewer than two SymPy fields"}
+    try:
+        ref = K.plain_instance(c)
+    except Exception as e:  # noqa: BLE001
+        return {"reproduced": False, "note": f"not constructible: {e}"}
+    vals = {f.name: getattr(ref, f.name) for f in fs}
+    extra = {f.name: getattr(ref, f.name) for f in K.nonsympy_fields(c) if f.default is dataclasses.MISSING and f.default_factory is dataclasses.MISSING}
+    rng = random.Random(14)
+    orders = [list(reversed(fs)), fs[1:] + fs[:1]] + [rng.sample(fs, len(fs)) for _ in range(2)]
+    for order in orders:
+        for n_pos in (0, 1):
+            pos = [vals[f.name] for f in fs[:n_pos]]
+            kw = {f.name: vals[f.name] for f in order if f.name not in {g.name for g in fs[:n_pos]}}
+            label = f"{c.__name__}({', '.join(map(str, pos))}{', ' if pos else ''}{', '.join(k + '=' + str(v) for k, v in kw.items())})"
+            try:
+                got = c(*pos, **kw, **extra)
+            except Exception as e:  # noqa: BLE001
+                return {"reproduced": True, "input": label, "expected": K.short(ref), "observed": f"{type(e).__name__}: {e}"[:300]}
+            bad = got.args != ref.args or any(not K._same(getattr(got, f.name), getattr(ref, f.name)) for f in K.fields(c))  # noqa: SLF001
+            if not bad and hasattr(c, "evaluate"):
+                try:
+                    bad = not K.same_tree(got.evaluate(), ref.evaluate())
+                except Exception:  # noqa: BLE001
+                    bad = False
+            if bad:
+                return {"reproduced": True, "input": label, "expected": f"args {ref.args}", "observed": f"args {got.args}; evaluate() {K.short(got.evaluate()) if hasattr(c, 'evaluate') else '-'}"}
+    return {"reproduced": False, "note": f"real {c.__name__}: keyword construction in {len(orders) * 2} orders equals positional construction"}
+
+
 def evaluate_flag_search(c: type):
     """C(*args, evaluate=True) == C(*args).evaluate() on the real class."""
     if not hasattr(c, "evaluate"):
@@ -642,6 +678,8 @@ def instance_level(chk: Check, decorated: list[type], tier: str) -> None:
                            replay=lambda m, fails=fails: fails[0] if fails else {"reproduced": False}, bounded=True)
         r = rebuild_search(c, tier)
         chk.struct(f"rebuild.instances[{nm}]", not r["reproduced"], F_NEW, witness=r, replay=lambda m, r=r: r, bounded=True)
+        r = keyword_construction_search(c)
+        chk.struct(f"keyword_construction.instances[{nm}]", not r["reproduced"], F_EXTRACT, witness=r, replay=lambda m, r=r: r, bounded=True)
         r = evaluate_flag_search(c)
         chk.struct(f"evaluate_flag.instances[{nm}]", not r["reproduced"], F_NEW, witness=r, replay=lambda m, r=r: r, bounded=True)
         r = eq_instances_search(c)
